@@ -5,11 +5,16 @@
    `removed` within the extent with loose and strict swapped; in 'intersection' mode the name used
    for every inserted track is the original name when free on the piece and otherwise a name not in
    use there, so no insertion overwrites an earlier one (pigeonhole proof in C19).
-   Tied by the correspondence, not proved: that the intersection-mode result holds exactly one
-   track per (original track, region) request with the original label (checked on every case by the
-   order-independent boolean specification [inter_spec] of Check/C07.v), and the per-label
-   crop + extrude = original measure identity. Statements only. *)
-From PV Require Import Model.AnnotationOps Proofs.SupportP Proofs.AnnotationInvP Proofs.AnnCropP.
+   In 'intersection' mode the result holds, as a multiset of (segment, label), exactly one
+   (s & r, label) per original track (s, t, label) and support region r intersecting s (every such
+   pair, each once), and satisfies the annotation invariant (so names are distinct per segment);
+   and for every label, at eps = 0 and counted on unit cells, the time covered in crop(S) plus the
+   time covered in extrude(S) equals the time covered in the original.
+   Tied by the correspondence, not proved: which of two colliding tracks gets the generated name
+   (iteration-order dependent; checked by exact agreement, verdict 2) and the measure identity for
+   eps > 0 (where it holds only up to the precision). Statements only. *)
+From PV Require Import Model.AnnotationOps Proofs.SupportP Proofs.AnnotationInvP Proofs.AnnCropP
+  Proofs.DictP Proofs.GapsP Proofs.AnnCropInterP.
 
 Section C07.
 Variable eps : Z.
@@ -39,13 +44,41 @@ Theorem C07_intersection_never_overwrites : forall c i t,
   ~ In (new_track c i (Some t) None) (get_tracks c i) \/
   (new_track c i (Some t) None = t /\ ~ In t (get_tracks c i)).
 Proof. exact inter_insertions_never_overwrite. Qed.
+Theorem C07_intersection_one_track_per_track_and_region : forall a S, AInv eps a ->
+  AInv eps (crop_ann eps a S Inter) /\
+  Permutation (entries (a_tracks (crop_ann eps a S Inter)))
+    (flat_map (fun p => map (fun tl_ : name * name => (sand (fst p) (snd p), snd tl_)) (tracks_at a (fst p)))
+              (co_iter eps (skeys (a_tracks a)) (norm_support eps S))).
+Proof. exact (crop_inter_entries eps Heps). Qed.
+Theorem C07_intersection_pairs_are_all_intersecting_pairs_once : forall a S s r, AInv eps a ->
+  (In (s, r) (co_iter eps (skeys (a_tracks a)) (norm_support eps S)) <->
+   In s (skeys (a_tracks a)) /\ In r (norm_support eps S) /\ intersects eps s r = true) /\
+  NoDup (co_iter eps (skeys (a_tracks a)) (norm_support eps S)).
+Proof. exact (crop_inter_pairs eps Heps). Qed.
 End C07.
+
+Theorem C07_label_cells_of_crop : forall a, AInv 0 a -> forall S l k, sup_wf S ->
+  (covers_cell (label_segments (a_tracks (crop_ann 0 a S Inter)) l) k <->
+   covers_cell (label_segments (a_tracks a) l) k /\ covers_cell (sup_list S) k).
+Proof. exact crop_inter_label_cells. Qed.
+Theorem C07_label_cells_of_extrude : forall a, AInv 0 a -> forall Rm l k, sup_wf Rm ->
+  (covers_cell (label_segments (a_tracks (extrude_ann 0 a Rm Inter)) l) k <->
+   covers_cell (label_segments (a_tracks a) l) k /\ ~ covers_cell (sup_list Rm) k).
+Proof. exact extrude_inter_label_cells. Qed.
+Theorem C07_crop_time_plus_extrude_time_is_original_time : forall a, AInv 0 a -> forall S l lo n, sup_wf S ->
+  (forall s, In s (skeys (a_tracks a)) -> lo <= st s /\ en s <= lo + Z.of_nat n) ->
+  snd (label_duration 0 (crop_ann 0 a S Inter) l) + snd (label_duration 0 (extrude_ann 0 a S Inter) l)
+  = snd (label_duration 0 a l).
+Proof. exact crop_extrude_label_time. Qed.
 
 Example C07_nonvacuous :
   let a := ann_of 0 (Some "u"%string) None [((0, 10), NStr "x", NStr "A"); ((2, 10), NStr "x", NStr "B")] in
   itertracks (crop_ann 0 a (SupSeg (2, 12)) Inter) = [((2, 10), NStr "0", NStr "B"); ((2, 10), NStr "x", NStr "A")] /\
   itertracks (crop_ann 0 a (SupSeg (2, 12)) Strict) = [((2, 10), NStr "x", NStr "B")] /\
-  itertracks (extrude_ann 0 a (SupSeg (2, 12)) Inter) = [((0, 2), NStr "x", NStr "A")].
+  itertracks (extrude_ann 0 a (SupSeg (2, 12)) Inter) = [((0, 2), NStr "x", NStr "A")] /\
+  snd (label_duration 0 (crop_ann 0 a (SupSeg (2, 12)) Inter) (NStr "A")) = 8 /\
+  snd (label_duration 0 (extrude_ann 0 a (SupSeg (2, 12)) Inter) (NStr "A")) = 2 /\
+  snd (label_duration 0 a (NStr "A")) = 10.
 Proof. vm_compute. repeat split. Qed.
 
 Print Assumptions C07_crop_loose_keeps_whole_selected_segments.
@@ -54,3 +87,8 @@ Print Assumptions C07_crop_carries_uri_and_modality.
 Print Assumptions C07_extrude_is_crop_on_the_complement.
 Print Assumptions C07_extrude_carries_uri_and_modality.
 Print Assumptions C07_intersection_never_overwrites.
+Print Assumptions C07_intersection_one_track_per_track_and_region.
+Print Assumptions C07_intersection_pairs_are_all_intersecting_pairs_once.
+Print Assumptions C07_label_cells_of_crop.
+Print Assumptions C07_label_cells_of_extrude.
+Print Assumptions C07_crop_time_plus_extrude_time_is_original_time.
